@@ -242,10 +242,11 @@ type astate struct {
 	seen  map[string]int
 	inRt  *asmRoutine
 	nload int
+	head  map[string]*Term // integer registers as they were at the last loop head (names R_0 in specs)
 }
 
 func (a *astate) clone() *astate {
-	n := &astate{regs: map[string]aval{}, cf: a.cf, zf: a.zf, lt: a.lt, s: a.s.clone(), res: map[string]*Term{}, pc: a.pc, seen: map[string]int{}, inRt: a.inRt, nload: a.nload}
+	n := &astate{regs: map[string]aval{}, cf: a.cf, zf: a.zf, lt: a.lt, s: a.s.clone(), res: map[string]*Term{}, pc: a.pc, seen: map[string]int{}, inRt: a.inRt, nload: a.nload, head: a.head}
 	for k, v := range a.regs {
 		n.regs[k] = v
 	}
@@ -511,6 +512,12 @@ func (ac *asmCtx) step(a *astate) []*astate {
 		ac.store(a, in, B(0), aval{t: mkSub(mkInt(m64), x)})
 		return next()
 	case "ANDQ", "ORQ", "XORQ", "TESTQ":
+		if in.op == "XORQ" && B(0).kind == "reg" && B(1).kind == "reg" && B(0).reg == B(1).reg {
+			// zeroing idiom: the old value is irrelevant
+			ac.store(a, in, B(1), aval{t: mkI(0)})
+			a.setLogicFlags(mkI(0))
+			return next()
+		}
 		x, y := intOf(ac.load(a, in, B(0))), intOf(ac.load(a, in, B(1)))
 		var r *Term
 		switch in.op {
@@ -668,6 +675,9 @@ func (ac *asmCtx) regEnv(a *astate) *Env {
 			names[r] = mathInt(v.t)
 		}
 	}
+	for r, t := range a.head {
+		names[r+"_0"] = mathInt(t)
+	}
 	res := ac.sig.Results()
 	for i := 0; i < res.Len(); i++ {
 		n := res.At(i).Name()
@@ -688,18 +698,62 @@ func (ac *asmCtx) regEnv(a *astate) *Env {
 	return &Env{fc: ac.fc, names: names, heap: a.s.heap, oldNames: ac.fc.entry, oldHeap: ac.fc.oldHeap, pos: ac.fc.fn.Pos(), nalloc0: ac.fc.nalloc0, nobj0: ac.fc.nobj0}
 }
 
-// loopRegs returns the registers written between a label and the last jump back to it.
+// loopWritten returns the registers written by the instructions that lie on a cycle through
+// the label (reachable from it and able to reach it again).
 func loopWritten(rt *asmRoutine, label string) map[string]bool {
-	start := rt.labels[label]
-	end := start
-	for i := start; i < len(rt.instrs); i++ {
-		in := rt.instrs[i]
-		if len(in.op) > 0 && in.op[0] == 'J' && len(in.args) == 1 && in.args[0].kind == "label" && in.args[0].name == label {
-			end = i
+	n := len(rt.instrs)
+	succ := make([][]int, n)
+	for i, in := range rt.instrs {
+		isJump := len(in.op) > 0 && in.op[0] == 'J'
+		if isJump && len(in.args) == 1 && in.args[0].kind == "label" {
+			if t, ok := rt.labels[in.args[0].name]; ok {
+				succ[i] = append(succ[i], t)
+			}
+		}
+		if in.op == "RET" || in.op == "JMP" {
+			continue
+		}
+		if i+1 < n {
+			succ[i] = append(succ[i], i+1)
 		}
 	}
+	start := rt.labels[label]
+	fwd := make([]bool, n)
+	var dfs func(i int)
+	dfs = func(i int) {
+		if fwd[i] {
+			return
+		}
+		fwd[i] = true
+		for _, j := range succ[i] {
+			dfs(j)
+		}
+	}
+	dfs(start)
+	// backward reachability to start
+	pred := make([][]int, n)
+	for i := range succ {
+		for _, j := range succ[i] {
+			pred[j] = append(pred[j], i)
+		}
+	}
+	bwd := make([]bool, n)
+	var dfb func(i int)
+	dfb = func(i int) {
+		if bwd[i] {
+			return
+		}
+		bwd[i] = true
+		for _, j := range pred[i] {
+			dfb(j)
+		}
+	}
+	dfb(start)
 	w := map[string]bool{}
-	for i := start; i <= end; i++ {
+	for i := 0; i < n; i++ {
+		if !(fwd[i] && bwd[i]) {
+			continue
+		}
 		in := rt.instrs[i]
 		switch in.op {
 		case "MULQ", "DIVQ":
@@ -709,8 +763,8 @@ func loopWritten(rt *asmRoutine, label string) map[string]bool {
 			if len(in.op) > 0 && in.op[0] == 'J' {
 				continue
 			}
-			if n := len(in.args); n > 0 && in.args[n-1].kind == "reg" {
-				w[in.args[n-1].reg] = true
+			if k := len(in.args); k > 0 && in.args[k-1].kind == "reg" {
+				w[in.args[k-1].reg] = true
 			}
 		}
 	}
@@ -855,6 +909,12 @@ func (fc *FnCtx) runAsm(repo string) (err error) {
 						a.s.heap["Mem"] = fc.fresh("L_Mem", SMem)
 					}
 					a.s.frames = append(a.s.frames, frame)
+					a.head = map[string]*Term{}
+					for r, v := range a.regs {
+						if !v.ptr {
+							a.head[r] = v.t
+						}
+					}
 					env2 := ac.regEnv(a)
 					for _, inv := range ls.Invs {
 						a.s.assume(fc.evalSpecBool(env2, inv.E))
@@ -869,6 +929,24 @@ func (fc *FnCtx) runAsm(repo string) (err error) {
 					return fmt.Errorf("%s: label %s is reached repeatedly and has no invariant", fc.key, in.label)
 				} else {
 					a.seen["plain:"+in.label]++
+				}
+			}
+			// hints attached to `label L+k`: the k-th instruction after label L
+			if a.inRt == rt {
+				for lk, ls := range fc.ct.Labels {
+					i := strings.Index(lk, "+")
+					if i < 0 {
+						continue
+					}
+					base, ok := rt.labels[lk[:i]]
+					off, err := strconv.Atoi(lk[i+1:])
+					if !ok || err != nil || base+off != a.pc {
+						continue
+					}
+					env := ac.regEnv(a)
+					for _, h := range ls.Hints {
+						fc.applyHint(a.s, env, h, "at "+lk)
+					}
 				}
 			}
 			if in.op == "RET" {
